@@ -103,6 +103,18 @@ theorem Old.agrees_on_nonempty (h : HCfg) (c : Ctx)
     ctx5 (Old.addHandlerContext h c) = own h := by
   simp [ctx5, Old.addHandlerContext, Old.setIf, own, Ctx.get, h1, h2, h3, h4, h5]
 
+/-- **application values never shadow the router's**: whatever the application stores in the message context afterwards
+    (in a subscriber decorator, a middleware, the handler's helpers) – also under key texts equal to the router's, like
+    "handler_name" – the accessors keep returning what the router put there -/
+theorem app_values_never_shadow (c : MixCtx) (app : List (String × String)) (k : Key) :
+    MixCtx.get (app.map (fun (n, v) => (AnyKey.app n, v)) ++ c) k = MixCtx.get c k := by
+  induction app with
+  | nil => rfl
+  | cons a rest ih => simp [MixCtx.get, ih]
+
+example : MixCtx.get [(.app "handler_name", "mine"), (.router .handlerName, "h"), (.app "publish_topic", "x")] .handlerName = "h" := by
+  decide
+
 /-! ### one message -/
 
 /-- the function invoked is the handler's own, on that message -/
@@ -331,6 +343,22 @@ theorem unstarted_undecorated (ops : List ROp) :
       by_cases hys : y.started = true
       · simp [startRH, hys] at hst
       · simp [startRH, hys] at hst
+
+/-- a `RunHandlers` call that fails part-way (a publisher decorator returned an error): the handlers in `p` – whichever
+    the map order put before the failing one – were started, the others are untouched (a failed
+    `decorateHandlerPublisher` commits nothing) -/
+def rstepPartial (p : RH → Bool) (s : RSt) : RSt :=
+  { s with hs := s.hs.map fun h => if p h then startRH s h else h }
+
+/-- **a failed attempt followed by the retry = one call that never failed**: whatever subset the failed attempt got
+    started, after the retry every handler is started and decorated exactly as by a single successful `RunHandlers` -/
+theorem failed_attempt_then_retry (p : RH → Bool) (s : RSt) :
+    rstep (rstepPartial p s) .runHandlers = rstep s .runHandlers := by
+  simp only [rstep, rstepPartial, List.map_map]
+  congr 1
+  apply List.map_congr_left
+  intro h _
+  by_cases hp : p h = true <;> by_cases hs : h.started = true <;> simp [startRH, hp, hs]
 
 /-- non-vacuity: decorator 7, handler a, Run; decorator 8 and handler b added to the running router, RunHandlers three
     times: a keeps [7], b gets [7, 8] once -/
